@@ -279,9 +279,9 @@ func c20Index(n int, which string) int {
 		return n / 2
 	case "last":
 		return n - 1
-	case "end":
+	case "end", "len":
 		return n
-	case "past":
+	case "past", "len1":
 		return n + 1
 	case "neg":
 		return -1
@@ -362,7 +362,7 @@ func c20GenArray(k c20Kind, m *c20Model, op string, bulk int) (string, c20Expect
 	case "remove":
 		i := c20Index(n, f[1])
 		if f[1] == "past" {
-			i = n // first invalid index
+			i = n // first invalid index ("len1" is the second)
 		}
 		fmt.Fprintf(&c, "out.append(M.shv(r.remove(at: %d)))\n", i)
 		if i < 0 || i >= n {
@@ -416,19 +416,28 @@ func c20GenArray(k c20Kind, m *c20Model, op string, bulk int) (string, c20Expect
 		}
 	case "slice":
 		var from, to int
-		switch f[1] {
-		case "inverted":
-			from, to = n, 0
-			if n == 0 {
-				from, to = 1, 0
+		if len(f) == 3 {
+			// slice:<from>:<upTo> over the index alphabet {0, mid, last, len, len1}
+			from, to = c20Index(n, f[1]), c20Index(n, f[2])
+		} else {
+			switch f[1] {
+			case "inverted":
+				from, to = n, 0
+				if n == 0 {
+					from, to = 1, 0
+				}
+			case "past":
+				from, to = 0, n+1
+			case "neg":
+				from, to = -1, n
 			}
-		case "past":
-			from, to = 0, n+1
-		case "neg":
-			from, to = -1, n
 		}
 		fmt.Fprintf(&c, "out.append(M.showv(v.slice(from: %d, upTo: %d)))\n", from, to)
-		exp.Fails = true
+		if from < 0 || to < 0 || from > to || to > n {
+			exp.Fails = true
+		} else {
+			exp.Outs = []string{idsStr(m.Xs[from:to])}
+		}
 	case "replace":
 		exp.Mutates = true
 		switch f[1] {
@@ -561,15 +570,35 @@ func c20GenArray(k c20Kind, m *c20Model, op string, bulk int) (string, c20Expect
 	return c.String(), exp
 }
 
+// c20IndexNames is the index alphabet of two-index operations.
+var c20IndexNames = []string{"0", "mid", "last", "len", "len1"}
+
+// c20ArrayOps: full = the complete alphabet incl. every (from, upTo) pair of
+// the index alphabet for slice and the second out-of-range index for the
+// one-index operations (used at the roots, i.e. for every start size class);
+// deeper states use one representative of each invalid class.
 func c20ArrayOps(k c20Kind, full bool) []string {
 	if k.Cont == "const" {
-		return []string{"observe", "set:0", "set:mid", "set:last", "set:past", "set:neg", "get:past", "get:neg", "replace:reverse", "replace:map"}
+		ops := []string{"observe", "set:0", "set:mid", "set:last", "set:past", "set:neg", "get:past", "get:neg", "replace:reverse", "replace:map"}
+		if full {
+			ops = append(ops, "set:len1", "get:len1")
+		}
+		return ops
+	}
+	if full {
+		ops := c20ArrayOps(k, false)
+		for _, a := range c20IndexNames {
+			for _, b := range c20IndexNames {
+				ops = append(ops, "slice:"+a+":"+b)
+			}
+		}
+		return append(ops, "remove:len1", "set:len1", "get:len1")
 	}
 	ops := []string{"observe",
 		"append", "appendAll", "insert:0", "insert:mid", "insert:end", "insert:past", "insert:neg",
 		"remove:0", "remove:mid", "remove:last", "remove:past", "remove:neg", "removeFirst", "removeLast",
 		"set:0", "set:mid", "set:last", "set:past", "set:neg", "get:past", "get:neg",
-		"slice:inverted", "slice:past", "slice:neg",
+		"slice:inverted", "slice:past", "slice:neg", "slice:len1:len1", "slice:len:len", "slice:last:mid",
 		"replace:reverse", "replace:slice", "replace:concat", "replace:filter", "replace:map",
 		"bulk:append", "bulk:removeLast", "bulk:removeFirst", "bulk:insertFront"}
 	return ops
